@@ -30,6 +30,6 @@ _orm.define(globals(), "C37", ("C37",), "backrefs",
             "same pairs",
             "seeded search; agreement is judged on loaded state only (an unloaded side is not an inconsistency), reload agreement through the "
             "C30 reload oracle.  Sampled.",
-            "dict- and set-based collections are not part of the universe",
+            "set-based collections are not part of the universe; the dict-based pair G.opts / O.g is",
             weights={"set_parent": 6, "bs_append": 5, "bs_remove": 5, "bs_replace": 4, "tag_add": 4, "tag_remove": 4, "node_parent": 5, "follow": 4,
-                     "unfollow": 3, "set_p": 4, "lazy": 3, "flush": 3, "commit": 2, "rollback": 2, "g_ops": 4}, cfg_fn=_cfg, shape=_shape)
+                     "unfollow": 3, "set_p": 4, "lazy": 3, "flush": 3, "commit": 2, "rollback": 2, "g_ops": 4, "o_bounce": 4}, cfg_fn=_cfg, shape=_shape)
